@@ -192,11 +192,14 @@ class BekernTokenizer(Tokenizer):
         if DECORATION_SEPARATOR not in ekern_content:
             return ekern_content
 
-        reduced_content = ekern_content.split(DECORATION_SEPARATOR)[0]  # Discard all decoration tokens
-        if reduced_content.endswith(TOKEN_SEPARATOR):
-            reduced_content = reduced_content[:-1] # Remove the last TOKEN_SEPARATOR if it exists
+        reduced_notes = []
+        for note_content in ekern_content.split(' '):  # a chord is a list of notes joined by a space
+            reduced_content = note_content.split(DECORATION_SEPARATOR)[0]  # Discard all decoration tokens
+            if reduced_content.endswith(TOKEN_SEPARATOR):
+                reduced_content = reduced_content[:-1] # Remove the last TOKEN_SEPARATOR if it exists
+            reduced_notes.append(reduced_content)
 
-        return reduced_content
+        return ' '.join(reduced_notes)
 
 
 class BkernTokenizer(Tokenizer):
